@@ -121,6 +121,11 @@ func zzC08_routing() {
 		})
 	cc.h = h
 	tokA, tokB, tokC := message.Token{0xA1}, message.Token{0xB1, 0xB2}, message.Token{0xC1, 0xC2, 0xC3}
+	if symChoose("lookalike-tokens", 2) == 1 {
+		// tokens that differ only in length / leading zero bytes are different tokens
+		tokA, tokB, tokC = message.Token{0x01}, message.Token{0x00, 0x01}, message.Token{0x00, 0x00, 0x01}
+		symCover("lookalike-tokens")
+	}
 	callsA, callsB := 0, 0
 	reg := func(tok message.Token, cb func(*pool.Message)) (*Observation[*zzClient], error) {
 		req := pool.NewMessage(context.Background())
